@@ -11,9 +11,21 @@ name, archqual, version ((relop, version) or None), arch (list of ArchRestrictio
 
 Spaces: every atom of the component product; all ordered pairs over an atom core, in OR and in AND
 position; all ordered triples over a smaller core in the four AND/OR shapes.
+
+Aliasing pass (every atom again, and all ordered pairs over the triple core): the round trip has to be the identity
+whatever the callers did with earlier results.  For a structure r with s = str(r): parse s twice (p1, p2); edit every
+nested mutable part of p1 in place (append to 'arch', to the first group of 'restrictions' and to 'restrictions',
+replace 'version', append an alternative to every group and a group to the conjunction); then
+
+  * p2 is unchanged (two parse results may share objects only if no edit of one shows in the other)
+  * str(r) is still s and leaves r unchanged
+  * parse_relations(str(r)) is still r
+
+and the edits are undone (so that no later case sees them, should the library share the edited objects).
 """
 import itertools
 import warnings
+from contextlib import contextmanager
 
 from .. import core
 
@@ -26,7 +38,10 @@ RULE = ("Engine B on a grammar product: states = distinct generator prefixes (na
         "comparisons (str does not raise, parse does not raise, no warning, structure equal, second str equal); "
         "non-trivial = structures in which some atom carries at least two of the four optional parts (so that "
         "optional regex groups are adjacent); sweep: one state / transition / trace per single fully featured atom in "
-        "which one component carries one swept character")
+        "which one component carries one swept character; aliasing pass: one state / transition / trace per "
+        "(structure, edit history) = format, parse twice, edit the first result in place everywhere, format and parse "
+        "again; evaluations = its oracle comparisons; such a case is non-trivial when some atom has an architecture "
+        "list or a restriction formula (a nested list that can be shared)")
 BUDGET = {"quick": 240, "thorough": 3000}
 
 KEYS = ("name", "archqual", "version", "arch", "restrictions")
@@ -44,6 +59,9 @@ def bounds(tier):
             "triple_core": tc, "triples": "%d ordered triples x 4 AND/OR shapes" % (tc ** 3),
             "sweep": "one legal character at a time in one component of a fully featured single atom (%s): "
                      % SWEEP_BASE_TEXT + ", ".join("%s x %d" % (name, len(vals)) for name, vals in sweep_plan()),
+            "aliasing": "every one of the 3520 atoms + %d ordered pairs over the triple core x {OR, AND}; edits per result: "
+                        "append to every 'arch' list, to the first group of and to every 'restrictions' list, replace "
+                        "every 'version', append an alternative to every group, append a group" % (tc * tc),
             "core_selection": "deterministic greedy cover of all 2-way combinations of component values and all 16 "
                               "presence masks of the optional parts, then an even stride; independent of the seed"}
 
@@ -57,6 +75,10 @@ def assumptions():
         "structures are compared with == (namedtuples compare as tuples); the second str() would fail on a result "
         "whose elements lost their attribute names",
         "seed rotates only a letter inside package and profile names; regex character classes seen are the same",
+        "aliasing pass: 'identical structure' is a statement about every call, so a result may not depend on what a "
+        "caller did to an earlier result; two results sharing objects (is) is only counted, it is reported when an "
+        "in-place edit of one result shows in the other; the structure handed to PkgRelation.str must not be changed "
+        "by the call",
         "sweep character sets (policy, not what the regex happens to take): package names a<c>b with c in [a-z0-9+.-], "
         "architecture qualifiers and architecture names a<c>b with c in [a-z0-9-], versions 1<c>2 with c in "
         "[A-Za-z0-9.+~-] and the epoch colon as '1:2', build-profile names a<c>b with c in [a-z0-9+.-] (the parser takes "
@@ -196,8 +218,24 @@ def _mask(d):
     return "n" + "".join(c for c, k in zip("qvar", KEYS[1:]) if d.get(k) is not None)
 
 
+def where(got, want):
+    """got != want: 'shape', 'keys' or the first differing key of the first differing atom"""
+    if (not isinstance(got, list) or len(got) != len(want)
+            or any(not isinstance(g, list) or len(g) != len(h) for g, h in zip(got, want))):
+        return "shape"
+    for g, h in zip(got, want):
+        for x, y in zip(g, h):
+            if x != y:
+                if not isinstance(x, dict) or set(x) != set(y):
+                    return "keys"
+                return [k for k in KEYS if x[k] != y[k]][0]
+    raise AssertionError("where(): no difference found")
+
+
 def exec_case(case):
     """-> (violations, outcome class, evaluations)"""
+    if case.get("alias"):
+        return exec_alias(case)
     from debian.deb822 import PkgRelation as R
     rels = build(case["rels"])
     ev = 1
@@ -219,19 +257,7 @@ def exec_case(case):
         bad.append(("rel/parse/warning", "no warning for %r" % s, [str(x.message) for x in w]))
     ev += 1
     if back != rels:
-        sig = None
-        if (not isinstance(back, list) or len(back) != len(rels)
-                or any(not isinstance(g, list) or len(g) != len(h) for g, h in zip(back, rels))):
-            sig = "rel/parse/shape"
-        else:
-            for g, h in zip(back, rels):
-                for got, want in zip(g, h):
-                    if sig is None and got != want:
-                        if not isinstance(got, dict) or set(got) != set(want):
-                            sig = "rel/parse/keys"
-                        else:
-                            sig = "rel/parse/%s" % [k for k in KEYS if got[k] != want[k]][0]
-        bad.append((sig, "%r -> %r" % (s, rels), back))
+        bad.append(("rel/parse/" + where(back, rels), "%r -> %r" % (s, rels), back))
     ev += 1
     try:
         s2 = R.str(back)
@@ -254,7 +280,138 @@ def exec_case(case):
 
 
 def nontrivial(case):
+    if case.get("alias"):
+        return alias_nontrivial(case)
     return any(sum(1 for x in a[1:] if x is not None) >= 2 for g in case["rels"] for a in g)
+
+
+# ------------------------------------------------------------------------------------------------
+# aliasing pass
+
+EDIT_ARCH = "edited"
+EDIT_PROFILE = "edited"
+EDIT_VERSION = ("<<", "0~edited")
+
+
+def _edited_atom():
+    return {"name": "edited", "archqual": None, "version": None, "arch": None, "restrictions": None}
+
+
+@contextmanager
+def edited_in_place(parsed):
+    """Edit every nested mutable part of a parse result in place; undo all of it on exit (in reverse order)."""
+    from debian.deb822 import PkgRelation as R
+    undo = []
+    try:
+        for group in parsed:
+            for d in group:
+                if isinstance(d.get("arch"), list):
+                    d["arch"].append(R.ArchRestriction(True, EDIT_ARCH))
+                    undo.append(d["arch"].pop)
+                r = d.get("restrictions")
+                if isinstance(r, list):
+                    if r and isinstance(r[0], list):
+                        r[0].append(R.BuildRestriction(False, EDIT_PROFILE))
+                        undo.append(r[0].pop)
+                    r.append([R.BuildRestriction(True, EDIT_PROFILE)])
+                    undo.append(r.pop)
+                undo.append(lambda d=d, v=d.get("version"): d.__setitem__("version", v))
+                d["version"] = EDIT_VERSION
+            group.append(_edited_atom())
+            undo.append(group.pop)
+        parsed.append([_edited_atom()])
+        undo.append(parsed.pop)
+        yield
+    finally:
+        for f in reversed(undo):
+            f()
+
+
+def shared_objects(p1, p2):
+    """number of mutable objects (group lists, atom dicts, 'arch' lists, 'restrictions' lists and their groups) two
+    parse results of the same text have in common"""
+    n = 0
+    for g, h in zip(p1, p2):
+        n += g is h
+        for x, y in zip(g, h):
+            n += x is y
+            for k in ("arch", "restrictions"):
+                a, b = x.get(k), y.get(k)
+                if isinstance(a, list):
+                    n += a is b
+                    if k == "restrictions" and isinstance(b, list):
+                        n += sum(1 for u, v in zip(a, b) if isinstance(u, list) and u is v)
+    return n
+
+
+def _quiet_parse(s):
+    from debian.deb822 import PkgRelation as R
+    with warnings.catch_warnings():
+        warnings.simplefilter("ignore")
+        return R.parse_relations(s)
+
+
+def exec_alias(case):
+    """-> (violations, outcome class, evaluations).  What the ordinary case of the same structure reports (str or parse
+    raising, a first round trip that is not the identity) is not reported again here."""
+    from debian.deb822 import PkgRelation as R
+    pristine = build(case["rels"])
+    rels = build(case["rels"])
+    mask = ", ".join(" | ".join("n" + "".join(c for c, k in (("a", "arch"), ("r", "restrictions")) if d[k] is not None)
+                                for d in g) for g in pristine)
+    if sum(len(g) for g in pristine) > 2:
+        mask = "%d atoms" % sum(len(g) for g in pristine)
+    try:
+        s = R.str(rels)
+        p1 = _quiet_parse(s)
+        p2 = _quiet_parse(s)
+    except Exception:
+        return [], "alias: first round trip raises (see the ordinary case)", 1
+    ev = 2
+    if p1 != pristine:
+        return [], "alias: first round trip differs (see the ordinary case)", ev
+    bad = []
+    if p2 != pristine:
+        # no edit yet: the second parse of the same text differs from the first
+        bad.append(("rel/alias/second-parse/" + where(p2, pristine), "%r -> %r, as the first time" % (s, pristine), p2))
+        return bad, "VIOLATION alias: " + mask, ev
+    shared = shared_objects(p1, p2)
+    with edited_in_place(p1):
+        ev += 1
+        if p2 != pristine:
+            bad.append(("rel/alias/results-share-state/" + where(p2, pristine),
+                        "a second parse result of %r stays %r when the first one is edited in place" % (s, pristine),
+                        repr(p2)))       # repr now: the edit is undone below
+        ev += 2
+        try:
+            s_again = R.str(rels)
+        except Exception as e:
+            bad.append(("rel/alias/str-after-edit/raises:%s" % type(e).__name__, s, "%s: %s" % (type(e).__name__, e)))
+            s_again = None
+        if rels != pristine:
+            bad.append(("rel/alias/str-changes-its-argument/" + where(rels, pristine),
+                        "PkgRelation.str leaves %r as it is" % (pristine,), repr(rels)))
+        if s_again is not None and s_again != s:
+            bad.append(("rel/alias/str-after-edit/differs", s, s_again))
+        if s_again is not None:
+            ev += 1
+            try:
+                p3 = _quiet_parse(s_again)
+                if p3 != pristine:
+                    bad.append(("rel/alias/parse-after-edit/" + where(p3, pristine),
+                                "%r -> %r also after an earlier result was edited in place" % (s_again, pristine), repr(p3)))
+            except Exception as e:
+                bad.append(("rel/alias/parse-after-edit/raises:%s" % type(e).__name__, s_again,
+                            "%s: %s" % (type(e).__name__, e)))
+    assert p1 == pristine, "edited_in_place did not undo its edits"
+    outcome = "alias: %s%s" % (mask, "; results share objects" if shared else "")
+    if bad:
+        outcome = "VIOLATION " + outcome
+    return bad, outcome, ev
+
+
+def alias_nontrivial(case):
+    return any(a[3] is not None or a[4] is not None for g in case["rels"] for a in g)
 
 
 # ------------------------------------------------------------------------------------------------
@@ -274,12 +431,16 @@ def units(tier, seed):
     out += [("pairs", i, pc) for i in range(len(pc))]
     out += [("triples", i, tc) for i in range(len(tc))]
     out += [("sweep", name) for name, _v in sweep_plan()]
+    out += [("alias", n, q) for n in range(RADIX[0]) for q in range(RADIX[1])]
+    out += [("alias-pairs", i, tc) for i in range(len(tc))]
     return out
 
 
 def unit_cost(u, tier):
-    if u[0] == "atoms":
+    if u[0] in ("atoms", "alias"):
         return 176
+    if u[0] == "alias-pairs":
+        return 2 * 2 * len(u[2])
     if u[0] == "pairs":
         return 2 * 2 * len(u[2])
     if u[0] == "sweep":
@@ -330,6 +491,32 @@ def run_unit(u, tier, seed):
                     part.extra["single atoms"] += 1
                     if (v, a, r) in ((0, 0, 0), (5, 2, 3)):
                         part.sample(case)
+        return part
+    if u[0] == "alias":
+        _, n, q = u
+        part.max_depth = 6
+        for v in range(RADIX[2]):
+            for a in range(RADIX[3]):
+                for r in range(RADIX[4]):
+                    node()
+                    case = {"rels": [[atom(C, (n, q, v, a, r))]], "alias": 1}
+                    _do(part, case)
+                    part.extra["aliasing: single atoms"] += 1
+                    if (v, a, r) == (5, 2, 3):
+                        part.sample(case)
+        return part
+    if u[0] == "alias-pairs":
+        _, i, tc = u
+        a1 = atom(C, tc[i])
+        part.max_depth = 11
+        for shape in ("a|b", "a,b"):
+            for ix in tc:
+                node()
+                case = {"rels": shape_rels(shape, [a1, atom(C, ix)]), "alias": 1}
+                _do(part, case)
+                part.extra["aliasing: pairs"] += 1
+        if i % 4 == 0:
+            part.sample(case)
         return part
     if u[0] == "sweep":
         atoms = dict(sweep_plan())[u[1]]
@@ -385,6 +572,32 @@ def replay(case):
 
 
 def repro_py(case):
+    if case.get("alias"):
+        return ("from debian.deb822 import PkgRelation as R\n"
+                "case = %r\n"
+                "def build():\n"
+                "    return [[{'name': n, 'archqual': q, 'version': None if v is None else tuple(v),\n"
+                "              'arch': None if a is None else [R.ArchRestriction(e, x) for e, x in a],\n"
+                "              'restrictions': None if r is None else [[R.BuildRestriction(e, p) for e, p in g] for g in r]}\n"
+                "             for n, q, v, a, r in group] for group in case]\n"
+                "rels, pristine = build(), build()\n"
+                "s = R.str(rels)\n"
+                "p1, p2 = R.parse_relations(s), R.parse_relations(s)\n"
+                "assert p1 == pristine and p2 == pristine\n"
+                "for g in p1:                       # the owner of p1 edits it in place\n"
+                "    for d in g:\n"
+                "        if d['arch'] is not None:\n"
+                "            d['arch'].append(R.ArchRestriction(True, 'edited'))\n"
+                "        if d['restrictions'] is not None:\n"
+                "            d['restrictions'][0].append(R.BuildRestriction(False, 'edited'))\n"
+                "            d['restrictions'].append([R.BuildRestriction(True, 'edited')])\n"
+                "        d['version'] = ('<<', '0~edited')\n"
+                "    g.append(dict(g[0], name='edited'))\n"
+                "p1.append([dict(p1[0][0], name='edited')])\n"
+                "assert p2 == pristine, ('two results of parse_relations share state', p2)\n"
+                "assert R.str(rels) == s and rels == pristine\n"
+                "back = R.parse_relations(R.str(rels))\n"
+                "assert back == pristine, (s, back)\n" % (case["rels"],))
     return ("import warnings\nfrom debian.deb822 import PkgRelation as R\n"
             "case = %r\n"
             "rels = [[{'name': n, 'archqual': q, 'version': None if v is None else tuple(v),\n"
